@@ -246,13 +246,18 @@ def run(ctx):
         "unchecked_obligations": ob_failed,
         "evaluations": total,
         "distinct_nontrivial": nontriv,
-        "rule": "scases: every string of length <= %s over a 7-symbol alphabet (exhaustive) + pools; pcases: every sequence of "
+        "rule": "scases: every string of length <= %s over a 7-symbol alphabet (exhaustive) + random longer strings + pools; lcases: "
+                "isLocalhost on a fixed pool of ~40 host spellings against a small reference; hcases: look-up sequences on one "
+                "PAC resolver / pool against fresh resolvers; pcases: every sequence of "
                 "<= %s tokens from a 21-token PAC vocabulary (exhaustive) + keyword x host:port pools + grammar-generated and "
                 "mutated return strings; rcases: every single connect-to rule over small pools x 12 addresses (exhaustive) + "
                 "random rule lists (0..4); fcases: random configurations {none, static http/https/socks5, external function, "
                 "PAC script run by the real goja resolver} x direct-domains lists x localhost mode x targets, proxy function "
-                "called directly; ecases: the real proxy in-process per configuration (+ random connect-to lists), one plain "
-                "request and one CONNECT per target, scripted network behind the real Dialer.  non-trivial = PAC strings the "
+                "called directly (several calls per instance, oracle answers from fresh resolver/matcher instances); ecases: "
+                "client sessions (3..8 requests: plain http, https absolute-form, CONNECT + inner request, requests inside a "
+                "MITM'd tunnel; mixed hosts; each on its own or all on one client connection) against the real proxy in-process "
+                "per configuration x connect-to list x dial-retry setting x scripted dial failures, scripted network behind "
+                "the real Dialer, full socket-event trace compared.  non-trivial = PAC strings the "
                 "parser accepts + proxy-function results that are a URL or an error + e2e requests that reached a proxy hop "
                 "+ connect-to cases" % (meta.get("split_exhaustive_len"), meta.get("pac_token_exhaustive_len")),
         "traces_validated_against_impl": total,
